@@ -1,6 +1,8 @@
 """C10 — correspondence + direct oracle for the listener path of the facade.
 
-Real code driven (nothing of it is replaced): a real `FacadeAppleTV` (hence the real
+Real code driven (nothing of it is replaced except, for the "connect" build, the table
+`pyatv.PROTOCOLS`, whose setup functions are ours): the real `pyatv.connect()` wiring (Core per
+protocol, takeover method, state dispatcher) or a hand-assembled device; a real `FacadeAppleTV` (hence the real
 `FacadePushUpdater`, `FacadeAudio`, `FacadeKeyboard`, `Relayer`, `FacadeAppleTV.takeover`)
 on a real `CoreStateDispatcher`, 1..3 protocols each with a real `ProtocolStateDispatcher`
 and a minimal `AbstractPushUpdater` subclass (only the abstract `active/start/stop` are
@@ -17,10 +19,14 @@ scheduling-independent part of the oracle only).
 """
 import asyncio
 import itertools
+import zlib
 
 RULE = ("suite A: every history of exactly L events over {post p v (p registered, v in 3 values), start, stop, "
         "takeover p, release} for 1, 2 and 3 protocols (L per tier), loop drained after every event; suite B: the "
         "same for Volume / OutputDevices / KeyboardFocus dispatches from two protocols (+ Keyboard takeover/release); "
+        "histories containing a takeover run (quick: two out of three, thorough: every second one) on a device built by the real pyatv.connect() with the takeover "
+        "performed through the Core that connect() handed to that protocol (core.takeover), or on a hand-assembled "
+        "FacadeAppleTV with facade.takeover(protocol, ...); histories without takeover alternate between the two builds; "
         "suite F: updaters whose own `active` flag turns off/on by itself (independently of start/stop), exhaustive "
         "histories for one and two protocols incl. takeover; suite D: for every Playing domain (each constructor field varied alone over three values, once without and once "
         "with an explicit hash shared by the three states; hash alone; colliding calculated hashes; unset/empty; mixed) "
@@ -81,6 +87,15 @@ class _Env:
         self.CoreStateDispatcher, self.ProtocolStateDispatcher = CoreStateDispatcher, ProtocolStateDispatcher
         self.UpdatedState = UpdatedState
         self.conf = Conf(IPv4Address("127.0.0.1"), "verif")
+        from pyatv.core import MutableService
+
+        from pyatv.storage.memory_storage import MemoryStorage
+
+        self.storage = MemoryStorage()      # one storage for the one device: its Settings are created once
+        self.settings = Settings()
+        self.full_config = Conf(IPv4Address("127.0.0.1"), "verif")    # one service per protocol, for pyatv.connect()
+        for proto in facade.DEFAULT_PRIORITIES:
+            self.full_config.add_service(MutableService("id-" + proto.name, proto, 1234, {}))
         self.priorities = list(facade.DEFAULT_PRIORITIES)  # index = the model's protocol number
 
         class Updater(AbstractPushUpdater):
@@ -267,6 +282,7 @@ class _World:
         self.updaters = {}
         self.dispatchers = {}
         self.handles = []
+        self.cores = {}
 
 
 async def _settle():
@@ -277,8 +293,72 @@ async def _settle():
     await asyncio.sleep(0)
 
 
+def _interfaces_for(env, w, i, reg_p, reg_k):
+    ifaces = {env.interface.Audio: env.Aud()}
+    if i in reg_p:
+        ifaces[env.interface.PushUpdater] = w.updaters[i]
+    if i in reg_k:
+        ifaces[env.interface.Keyboard] = env.Kbd()
+    return ifaces
+
+
+async def _answer_true():
+    return True
+
+
+async def _build_direct(env, w, reg_p, reg_k):
+    """A FacadeAppleTV put together by hand; takeovers go through facade.takeover(protocol, ...)."""
+    core = env.CoreStateDispatcher()
+    atv = env.facade.FacadeAppleTV(env.conf, _SessionManager(), core, env.settings)
+    for i, proto in enumerate(env.priorities):
+        w.dispatchers[i] = env.ProtocolStateDispatcher(proto, core)
+        w.updaters[i] = env.Updater(w.dispatchers[i])      # registered only if i in reg_p
+    for i in sorted(set(reg_p) | set(reg_k)):
+        atv.add_protocol(env.SetupData(env.priorities[i], _answer_true, lambda: set(), lambda: {},
+                                       _interfaces_for(env, w, i, reg_p, reg_k), set()))
+    await atv.connect()
+    return atv
+
+
+class _Session:
+    """Stands in for aiohttp.ClientSession (only stored)."""
+
+
+async def _build_via_connect(env, w, reg_p, reg_k):
+    """The device object as the real `pyatv.connect()` builds it (no network).  Only the table
+    `pyatv.PROTOCOLS` is replaced — same keys in the same order, each `setup(core)` being ours:
+    it keeps the Core that connect() created and wired for that protocol (state dispatcher,
+    takeover method), builds the scripted updater on the core's dispatcher and yields the
+    SetupData.  "takeover by protocol p" is then `cores[p].takeover(...)`, the way protocol
+    code performs it."""
+    import pyatv
+
+    real = pyatv.PROTOCOLS
+
+    def wrap(proto, methods):
+        i = env.priorities.index(proto)
+
+        def setup(core):
+            w.cores[i] = core
+            w.dispatchers[i] = core.state_dispatcher
+            w.updaters[i] = env.Updater(core.state_dispatcher)
+            if i in reg_p or i in reg_k:
+                yield env.SetupData(proto, _answer_true, lambda: set(), lambda: {},
+                                    _interfaces_for(env, w, i, reg_p, reg_k), set())
+
+        return methods._replace(setup=setup)
+
+    pyatv.PROTOCOLS = {proto: wrap(proto, m) for proto, m in real.items() if proto in env.priorities}
+    try:
+        return await pyatv.connect(env.full_config, asyncio.get_running_loop(), session=_Session(),
+                                   storage=env.storage)
+    finally:
+        pyatv.PROTOCOLS = real
+
+
 async def _run_case(env, case):
-    mode, reg_p, reg_k, domain, toks, raises = case
+    mode, reg_p, reg_k, domain, toks, raises = case[:6]
+    build = case[6] if len(case) > 6 else "direct"
     w = _World(env, domain, raises)
     loop = asyncio.get_running_loop()
 
@@ -290,23 +370,10 @@ async def _run_case(env, case):
             w.loop_errors.append(type(exc).__name__ if exc is not None else str(context.get("message"))[:60])
 
     loop.set_exception_handler(_on_loop_error)
-    core = env.CoreStateDispatcher()
-    atv = env.facade.FacadeAppleTV(env.conf, _SessionManager(), core, env.Settings())
-    for i, proto in enumerate(env.priorities):
-        w.dispatchers[i] = env.ProtocolStateDispatcher(proto, core)
-        w.updaters[i] = env.Updater(w.dispatchers[i])      # registered only if i in reg_p
-    for i in sorted(set(reg_p) | set(reg_k)):
-        ifaces = {env.interface.Audio: env.Aud()}
-        if i in reg_p:
-            ifaces[env.interface.PushUpdater] = w.updaters[i]
-        if i in reg_k:
-            ifaces[env.interface.Keyboard] = env.Kbd()
-
-        async def _connect():
-            return True
-
-        atv.add_protocol(env.SetupData(env.priorities[i], _connect, lambda: set(), lambda: {}, ifaces, set()))
-    await atv.connect()
+    if build == "connect":
+        atv = await _build_via_connect(env, w, reg_p, reg_k)
+    else:
+        atv = await _build_direct(env, w, reg_p, reg_k)
     listener = _Listener(w)
     push, audio, kbd = atv.push_updater, atv.audio, atv.keyboard
     push.listener = listener
@@ -330,7 +397,10 @@ async def _run_case(env, case):
                 a, b = MASKS[int(f[2])]
                 ifs = ([env.interface.PushUpdater] if a else []) + ([env.interface.Keyboard] if b else [])
                 try:
-                    w.handles.append(atv.takeover(env.priorities[int(f[1])], *ifs))
+                    if build == "connect":      # through the Core that connect() handed to protocol p
+                        w.handles.append(w.cores[int(f[1])].takeover(*ifs))
+                    else:
+                        w.handles.append(atv.takeover(env.priorities[int(f[1])], *ifs))
                 except env.exceptions.InvalidStateError:
                     w.refused.append(idx)
             elif f[0] == "r":
@@ -397,7 +467,7 @@ def execute(env, cases):
 
 def oracle(case, res):
     """Returns (problems, delivered, suppressed).  problems: list of (sig, text)."""
-    mode, reg_p, reg_k, _domain, toks, _raises = case
+    mode, reg_p, reg_k, _domain, toks, _raises = case[:6]
     problems = []
     by_idx = {}
     for ent in res["log"]:
@@ -683,7 +753,7 @@ REPEAT = WITNESSES[4]
 
 
 def line_for(case):
-    mode, reg_p, reg_k, _domain, toks, _raises = case
+    mode, reg_p, reg_k, _domain, toks, _raises = case[:6]
     csv = lambda l: ",".join(map(str, l)) if l else "-"
     return f"run {mode} {csv(reg_p)} {csv(reg_k)} " + " ".join(toks)
 
@@ -719,17 +789,37 @@ def compare(ctx, case, res, ans):
 
 
 def case_json(case):
-    mode, reg_p, reg_k, domain, toks, raises = case
+    mode, reg_p, reg_k, domain, toks, raises = case[:6]
     return {"mode": mode, "regP": list(reg_p), "regK": list(reg_k), "domain": domain, "events": " ".join(toks),
-            "listener_raises_on_call": raises}
+            "listener_raises_on_call": raises, "build": case[6] if len(case) > 6 else "direct"}
 
 
 def case_from_json(j):
     return (j["mode"], list(j["regP"]), list(j["regK"]), j.get("domain", j.get("field", "title")), j["events"].split(),
-            j.get("listener_raises_on_call", ""))
+            j.get("listener_raises_on_call", ""), j.get("build", "direct"))
+
+
+def with_builds(cases, both):
+    """How the device object is built and takeovers are performed: "connect" = through the real
+    pyatv.connect(), takeover by protocol p via the Core connect() gave p (core.takeover), the way
+    protocols do it; "direct" = FacadeAppleTV assembled by hand, facade.takeover(p, ...).  Histories
+    with a takeover go two out of three (quick) / every second one (thorough) through connect,
+    the others every fourth / second one."""
+    out = []
+    for case in cases:
+        # a deterministic pseudo-random number per history (an index would correlate with the last event)
+        n = zlib.crc32(repr(tuple(case[:6])).encode()) >> 3
+        if len(case) > 6:
+            out.append(case)
+        elif any(tok.startswith("k.") for tok in case[4]):
+            out.append(tuple(case) + (("direct" if n % (2 if both else 3) == 0 else "connect"),))
+        else:
+            out.append(tuple(case) + (("connect" if n % (2 if both else 4) == 0 else "direct"),))
+    return out
 
 
 def evaluate(ctx, env, cases, suite):
+    cases = with_builds(cases, ctx.thorough)
     results = execute(env, cases)
     answers = ctx.lean([line_for(c) for c in cases])
     for case, res, ans in zip(cases, results, answers):
@@ -740,6 +830,7 @@ def evaluate(ctx, env, cases, suite):
         ctx.note("protocols:%d" % len(case[1]))
         ctx.note("delivered:%s" % ("0" if delivered == 0 else "1-2" if delivered < 3 else "3+"))
         ctx.note("domain:" + case[3])
+        ctx.note("build:" + case[6])
         if case[5]:
             ctx.note("listener_faults_scripted")
             ctx.note("listener_faults_raised", res.get("faults", 0))
@@ -839,11 +930,11 @@ def replay(ctx, failure):
 def shrink(ctx, failure):
     """Greedy event removal while the same oracle failure persists on the real code."""
     env = _Env()
-    mode, reg_p, reg_k, field, toks, raises = case_from_json(failure["case"])
+    mode, reg_p, reg_k, field, toks, raises, build = case_from_json(failure["case"])
     sig = failure["sig"]
 
     def fails(ts, rs=None):
-        case = (mode, reg_p, reg_k, field, ts, raises if rs is None else rs)
+        case = (mode, reg_p, reg_k, field, ts, raises if rs is None else rs, build)
         res = execute(env, [case])[0]
         probs, _d, _s = oracle(case, res)
         hit = [t for s, t in probs if s == sig]
@@ -873,6 +964,6 @@ def shrink(ctx, failure):
                 cur, best, changed = cand, r, True
                 break
     text, res = best
-    return {"sig": sig, "case": case_json((mode, reg_p, reg_k, field, cur, raises)),
+    return {"sig": sig, "case": case_json((mode, reg_p, reg_k, field, cur, raises, build)),
             "observed": {"received": [list(e) for e in res["log"]], "refused": res["refused"], "errors": res["errors"]},
             "required": "property C10", "what": text}
